@@ -3039,6 +3039,11 @@ func (c *compiler) emitCallee(callee compiledExpr) (calleeName unistring.String)
 		c.emit(nil)
 	case *compiledSuperExpr:
 		// no-op
+	case *compiledCallExpr:
+		// The callee can be a part of the same optional chain (a?.b()()) and short-circuit to the end of it,
+		// so nothing may be left on the stack while it is evaluated: 'this' is inserted afterwards.
+		callee.emitGetter(true)
+		c.emit(insertUndefThis)
 	default:
 		c.emit(loadUndef)
 		callee.emitGetter(true)
